@@ -20,10 +20,11 @@ const (
 	caWrapPeer
 	caPcallTbcYield
 	caDeclareTBCCo
+	caDeclareTBCYield
 	caNumActions
 )
 
-var coActionNames = []string{"yield", "resume-peer", "resume-self", "status", "error", "close-peer", "pcall-yield", "declare-tbc", "running", "yield-in-pcall-with-tbc", "declare-tbc-handler-uses-coroutines"}
+var coActionNames = []string{"yield", "resume-peer", "resume-self", "status", "error", "close-peer", "pcall-yield", "declare-tbc", "running", "yield-in-pcall-with-tbc", "declare-tbc-handler-uses-coroutines", "declare-tbc-handler-yields"}
 
 func co(name string) Expr { return Glob("coroutine", name) }
 
@@ -50,6 +51,9 @@ func coAction(a int, x, p string, n int) []Stmt {
 	case caDeclareTBCCo:
 		id := fmt.Sprintf("%s-cc%d", x, n)
 		return []Stmt{&Local{Names: []string{fmt.Sprintf("cc%d", n)}, Attribs: []string{"close"}, Exprs: []Expr{gridCloser(id, ckCoroutine)}}}
+	case caDeclareTBCYield:
+		id := fmt.Sprintf("%s-cy%d", x, n)
+		return []Stmt{&Local{Names: []string{fmt.Sprintf("cy%d", n)}, Attribs: []string{"close"}, Exprs: []Expr{gridCloser(id, ckYield)}}}
 	case caWrapPeer:
 		return []Stmt{Emit(tag("running"), C(N("select"), I(2), C(co("running"))), B("==", C(N("select"), I(1), C(co("running"))), N(x)))}
 	case caPcallTbcYield:
